@@ -61,3 +61,9 @@ reg("C25", "runtime monitor: statement-derived structural oracle on every sequen
 reg("C26", "runtime monitor: exhausted solution sets of three builds (no constraint / constraint on the block / constraint on the combinator) compared through an independent window evaluator",
     "S1 must equal the sequences of the unconstrained set that satisfy the constraint inside every repetition window, S2 those that satisfy it over the whole sequence; Repeat (with/without preamble), Merge(REPEAT) and Nest.",
     "the library's unconstrained set is the universe; repetition-window geometry as documented; <= 700 sequences")
+reg("C19", "runtime monitor: state snapshots around every call of random library-call histories on one block, later syntheses judged for validity",
+    "Random histories of synthesize/print/tabulate/csv/convert/mismatch calls on one block (half with continuous factors); the block's observable design state is snapshotted around each call and every later synthesize_trials must return valid sequences with the first call's columns. A later exception that a fresh block reproduces is charged to C08, not here.",
+    "snapshot fields: design names/order, continuous factors, crossings, trial count, constraints, errors; R for the discrete part")
+reg("C22", "runtime monitor: recording probe distributions and constraint predicates with unique values, returned sequences re-derived from their own values",
+    "CustomDistribution functions are probes (unique fresh values, deterministic dependent/window functions), so each returned value identifies the call and attempt that produced it; every returned sequence is re-derived: counts, constraints at every trial, same-trial dependencies, documented windows with NaN rules, cumulative restarts, discrete part by R.",
+    "probe functions deterministic in their arguments; built-in distributions observed through ranges only")
